@@ -408,6 +408,11 @@ func trunc(s string) string {
 
 // WellFormed walks a decoded value (cycle-safe) and reports nil elements or panicking
 // String/Type methods.
+type tupleKey struct {
+	p *starlark.Value
+	n int
+}
+
 func WellFormed(v starlark.Value) (ok bool, why string) {
 	defer func() {
 		if r := recover(); r != nil {
@@ -426,6 +431,14 @@ func WellFormed(v starlark.Value) (ok bool, why string) {
 		_ = v.Type()
 		switch x := v.(type) {
 		case starlark.Tuple:
+			// tuples shared through the memo (a doubling DAG of tuples) are visited once per storage, not per path
+			if len(x) > 0 {
+				k := tupleKey{&x[0], len(x)}
+				if seen[k] {
+					return ""
+				}
+				seen[k] = true
+			}
 			for _, e := range x {
 				if s := walk(e, depth+1); s != "" {
 					return s
